@@ -6,6 +6,7 @@ use std::{env, fs, path::Path};
 fn main() {
     let repo = env::var("VERIF_REPO").unwrap_or_else(|_| String::from("/repo"));
     println!("cargo:rerun-if-env-changed=VERIF_REPO");
+    println!("cargo:rustc-env=VFH_REPO_DIR={}", repo.trim_end_matches('/'));
     let out = env::var("OUT_DIR").unwrap();
     let mods = [
         ("block_watcher", "block_watcher.rs"),
